@@ -1,7 +1,7 @@
 """C08 - every storage is a uid-keyed map; failed mutations change nothing."""
 import sys
 import proto
-from common import capped, Failure, Outcome, Broken
+from common import capped, Failure, Outcome, Broken, listing_diff_is_order_only
 from gen import pick
 import stores
 import polcase
@@ -13,7 +13,13 @@ MODULE = 'Props.C08'
 THEOREMS = ['Vakt.C08.add_existing_refused', 'Vakt.C08.add_fresh', 'Vakt.C08.update_absent_noop',
             'Vakt.C08.update_present', 'Vakt.C08.delete_spec', 'Vakt.C08.failed_mutation_noop', 'Vakt.C08.reads_pure',
             'Vakt.C08.distinct_preserved', 'Vakt.C08.get_is_lookup', 'Vakt.C08.getAll_edges', 'Vakt.C08.pages_tile',
-            'Vakt.C08.pages_cover', 'Vakt.C08.retrieveAll_all', 'Vakt.C08.listing_perm', 'Vakt.C08.history_distinct']
+            'Vakt.C08.pages_cover', 'Vakt.C08.retrieveAll_all', 'Vakt.C08.listing_perm', 'Vakt.C08.history_distinct',
+            # the concrete storages (programs over their clients' primitives) refine the abstract map
+            'Vakt.C08B.run_refines', 'Vakt.C08B.memory_refines', 'Vakt.C08B.redis_refines', 'Vakt.C08B.mongo_refines',
+            'Vakt.C08B.sql_refines', 'Vakt.C08B.observable_refines', 'Vakt.C08B.observable_notifies',
+            'Vakt.C08B.observable_notify_last', 'Vakt.C08B.redis_serializer_failure',
+            'Vakt.C08B.redis_failed_mutation_noop', 'Vakt.C08B.mongo_retrieve_all']
+EXTRA_IMPORTS = ['Props.C08Backends']
 FLOOR = {'quick': 150, 'thorough': 2000}
 ASSUMPTIONS = ['Redis and MongoDB are in-process fakes of the client calls vakt makes (no servers in this sandbox); SQL is '
                'the real SQLAlchemy on SQLite with foreign_keys=ON',
@@ -100,6 +106,8 @@ def run_history(kind, rng, nmut, out):
     uids = uids_for(kind)
     big = kind.split(':')[-1] == 'memory'
     st = stores.make(kind)
+    log = call_log(st)
+    calls = []
     pool = []            # content id -> key
     keys = {}
     ops, outs, human = [], [], []
@@ -115,6 +123,13 @@ def run_history(kind, rng, nmut, out):
         return 'pols ' + ','.join('%s:%d' % (tok(p.uid), pid_of(p)) for p in ps)
 
     def do(op, *a):
+        n0 = len(log)
+        try:
+            return do_(op, *a)
+        finally:
+            calls.append(log[n0:])
+
+    def do_(op, *a):
         try:
             if op == 'add':
                 st.add(a[0])
@@ -179,7 +194,41 @@ def run_history(kind, rng, nmut, out):
             ops.append('retr %d' % b)
             outs.append(do('retr', b))
     line = 'STORE %s %s %d %s' % ('T' if sorted_ else 'F', 'T' if eager else 'F', len(ops), ' '.join(ops))
-    return line, outs, {'backend': kind, 'history': human}
+    return line, outs, {'backend': kind, 'history': human, 'calls': calls, 'nops': len(ops), 'ops': ops}
+
+
+BACKEND_MODEL = {'memory': 'memory', 'sqlite': 'sql', 'redis-json': 'redis', 'redis-pickle': 'redis', 'mongo': 'mongo',
+                 'observable:memory': 'obs-memory', 'observable:sqlite': 'obs-sql', 'observable:redis-pickle': 'obs-redis',
+                 'observable:mongo': 'obs-mongo'}
+TRACED = ('redis', 'mongo', 'obs-redis', 'obs-mongo', 'obs-memory', 'obs-sql')
+
+
+def call_log(st):
+    """one list receiving, in order, the name of every client call the storage makes (fake Redis / fake Mongo
+    collection) and 'notify' for every notification the observable wrapper sends"""
+    log = []
+    inner = getattr(st, 'storage', st)
+    if hasattr(inner, 'client') and hasattr(inner.client, 'calls'):
+        inner.client.calls = log
+    if hasattr(inner, 'collection') and hasattr(inner.collection, 'calls'):
+        inner.collection.calls = log
+    if hasattr(st, 'add_listener') and hasattr(st, 'storage'):
+        class _L:
+            def update(self_):
+                log.append('notify')
+        st.add_listener(_L())
+    return log
+
+
+def canon_calls(op, calls, mk):
+    """what is compared of a call trace: the client calls in order for a mutation or a get; for a listing the set of
+    calls (one get_all per page - how many pages are asked for is the loop of retrieve_all, judged on its output)"""
+    calls = [c for c in calls if c != 'notify' or mk.startswith('obs-')]
+    if not (mk.endswith('redis') or mk.endswith('mongo')):
+        calls = [c for c in calls if c == 'notify']
+    if op.startswith(('all', 'retr')):
+        return ','.join(sorted(set(calls)))
+    return ','.join(calls)
 
 
 def split_model(m):
@@ -206,6 +255,13 @@ def run(ctx):
             out.evaluations += len(outs)
             out.count('backend:' + kind)
     model = ctx.driver.run(lines) if ctx.driver else [None] * len(lines)
+    blines = [('BACKEND %s %s' % (BACKEND_MODEL[d['backend']], l.split(' ', 3)[3]) if d['backend'] in BACKEND_MODEL else None)
+              for l, (_, d) in zip(lines, meta)]
+    bmodel = iter(ctx.driver.run([b for b in blines if b]) if ctx.driver else [])
+    for line, bl, (outs, desc) in zip(lines, blines, meta):
+        if bl is None or not ctx.driver:
+            continue
+        _concrete_model(out, line, bl, next(bmodel), outs, desc)
     for line, (outs, desc), m in zip(lines, meta, model):
         if m == 'bad-op':
             raise Broken('driver rejected: %s' % line[:300])
@@ -227,6 +283,9 @@ def run(ctx):
                         'the abstract uid-keyed map gives a different output at operation %d' % i,
                         'Vakt.C08 (abstract store step)', line=line, size=i)
             f.signature = 'model:' + desc['backend']
+            # the listing order of a backend (which policy lands on which page) is not prescribed: pages tiling the
+            # collection and retrieval yielding everything exactly once are, and the direct oracle has judged those
+            f.weak = len(outs) == len(mo) and all(a == b or listing_diff_is_order_only(a, b) for a, b in zip(outs, mo))
             out.failures.append(f)
         out.nontriv(line)
         if len(out.samples) < 4 and ('exists' in outs or 'rejected' in outs):
@@ -239,6 +298,52 @@ def run(ctx):
                 'the abstract map; evaluations = individual operations; every history is non-trivial (>=3 mutations)'
                 % (len(KINDS), nmut, UIDS))
     return out
+
+
+def _concrete_model(out, line, bl, m, outs, desc):
+    """the model of the concrete storage (Model/Backends.lean: the storage's methods as programs over its client's
+    primitives, proved to refine the abstract map in Props/C08Backends.lean) against the implementation: outputs, and
+    the client calls made by every operation"""
+    if m == 'bad-op':
+        raise Broken('driver rejected: %s' % bl[:300])
+    mk = bl.split(' ', 2)[1]
+    body = m.split(' || ')[0]
+    per = body.split(' | ') if body else []
+    mouts = [x.rsplit(' @', 1)[0] for x in per]
+    mcalls = [x.rsplit(' @', 1)[1] if ' @' in x else '' for x in per]
+    out.count('concrete-model:' + mk)
+    d = dict(desc)
+    d.pop('calls', None), d.pop('ops', None)
+    if mouts != outs:
+        i = next((j for j, (a, b) in enumerate(zip(outs, mouts)) if a != b), min(len(outs), len(mouts)))
+        f = Failure('disagreement', dict(d, first_difference={'op_index': i, 'impl': outs[i] if i < len(outs) else None,
+                                                              'model': mouts[i] if i < len(mouts) else None}),
+                    outs[max(0, i - 3):i + 1], mouts[max(0, i - 3):i + 1],
+                    'the model of the concrete storage gives a different output at operation %d' % i,
+                    'Vakt.C08B (%s step)' % mk, line=bl, size=i)
+        f.signature = 'concrete:' + desc['backend']
+        f.weak = len(outs) == len(mouts) and all(a == b or listing_diff_is_order_only(a, b) for a, b in zip(outs, mouts))
+        out.failures.append(f)
+        return
+    if mk not in TRACED:
+        return
+    ops = _split_ops(desc['ops'])
+    for i, (op, ic, mc) in enumerate(zip(ops, desc['calls'], mcalls)):
+        a, b = canon_calls(op, ic, mk), canon_calls(op, [c for c in mc.split(',') if c], mk)
+        if a != b:
+            f = Failure('disagreement', dict(d, first_difference={'op_index': i, 'op': op, 'impl_calls': a, 'model_calls': b}),
+                        a, b, 'operation %d (%s) makes other client calls than the model of the storage' % (i, op.split(' ')[0]),
+                        'Vakt.C08B (%s step, call trace)' % mk, line=bl, size=i)
+            f.signature = 'calls:' + desc['backend']
+            # which client calls a storage makes is not prescribed by the property - except that the observable wrapper
+            # notifies exactly once after a mutation that returned and never otherwise (C11 states it; the oracle there)
+            f.weak = True
+            out.failures.append(f)
+            return
+
+
+def _split_ops(ops):
+    return list(ops)
 
 
 def _large_collections(ctx, out, rng):
